@@ -613,6 +613,18 @@ func genEdgeShapes(w *caseWriter, st *pkgStats) int {
 	c.Contents = files.Contents{{Source: "/proc/crypto", Destination: "/opt/procfs/crypto"}, {Source: "/proc/iomem", Destination: "/opt/procfs/iomem"}, {Source: "src/f1", Destination: "/opt/procfs/f1"}}
 	n++
 	runPkgCase(w, fmt.Sprintf("e-sources-from-procfs-%d", n), pkgDesc{YAML: marshalConfig(&c), Formats: []string{"ipk", "rpm"}}, st, nil)
+	// entries dated AFTER the package mtime (a declared per-entry time, tree directories with their own time): each entry
+	// carries its own time everywhere the package states it
+	c = baseConfig("latertimes")
+	c.Contents = files.Contents{{Source: "src/f1", Destination: "/opt/later/f1", FileInfo: &files.ContentFileInfo{MTime: time.Unix(4102444800, 0).UTC()}},
+		{Destination: "/opt/later/dir", Type: files.TypeDir, FileInfo: &files.ContentFileInfo{MTime: time.Unix(1900000000, 0).UTC()}},
+		{Source: "/x", Destination: "/opt/later/link", Type: files.TypeSymlink, FileInfo: &files.ContentFileInfo{MTime: time.Unix(1900000001, 0).UTC()}}}
+	emit("entries-dated-after-the-package-mtime", c, nil)
+	// a tree with a declared mode replicated AT a directory the system tables name
+	c = baseConfig("treeatsys")
+	c.Contents = files.Contents{{Source: "src/k", Destination: "/usr/local/bin", Type: files.TypeTree, FileInfo: &files.ContentFileInfo{Mode: 0o711, Owner: "svc"}},
+		{Source: "src/d", Destination: "/opt", Type: files.TypeTree, FileInfo: &files.ContentFileInfo{Mode: 0o700}}}
+	emit("tree-with-declared-mode-at-a-system-directory", c, nil)
 	c = baseConfig("nodate")
 	c.Changelog = "changelog.yaml"
 	c.Contents = files.Contents{{Source: "src/f1", Destination: "/usr/bin/nodate"}}
